@@ -150,8 +150,26 @@ func (s *shell) Start(chan<- error) error { return nil }
 func (s *shell) Stop() error              { return nil }
 func (s *shell) Flush(int64)              {}
 func (s *shell) Enqueue(sqe *aioSQE) bool {
-	if len(s.q) >= s.cap {
+	limit := s.cap
+	if s.sim.fair {
+		// a worker that is not stalled keeps collecting while the kernel
+		// dispatches: an idle worker holds up to a batch (store) or one
+		// submission (router, sender) outside the channel, and runs when its
+		// batch is full (it still blocks on a full completion queue)
+		if len(s.parked) == 0 || s.kind == t_aio.Sender {
+			if s.kind == t_aio.Store {
+				limit += s.sim.Cfg.StoreBatch
+			} else {
+				limit++
+			}
+		}
+		if len(s.q) >= limit {
+			s.sim.drainInTick(s)
+		}
+	}
+	if len(s.q) >= limit {
 		s.sim.Stats["aio.queue_full."+s.kind.String()]++
+		s.sim.logf("QUEUE FULL %s refuses %s", s.kind, sqe.Submission.Tags["id"])
 		return false
 	}
 	s.q = append(s.q, sqe)
@@ -238,6 +256,7 @@ type Sim struct {
 	curSender  []*aioCQE
 	curBatch   []*TxRec
 	crashNow   bool
+	fair       bool // convergence phase: workers run concurrently with the kernel, no faults
 
 	// observation
 	Last      *tables.Tables // latest committed snapshot
@@ -570,6 +589,28 @@ func (s *Sim) stepDeliver(sub string, k int) bool {
 	return true
 }
 
+// drainInTick lets the worker of a subsystem make progress in the middle of
+// a kernel tick: push parked completions while the completion queue has room,
+// and, once everything is pushed, process the next batch.
+func (s *Sim) drainInTick(sh *shell) {
+	sub := sh.kind.String()
+	for i := 0; i < 4; i++ {
+		if len(sh.parked) > 0 {
+			s.stepDeliver(sub, 0)
+		}
+		if len(sh.parked) > 0 && sub != "sender" {
+			return
+		}
+		if len(sh.q) < sh.cap {
+			return
+		}
+		s.Stats["worker_ran_mid_tick"]++
+		if !s.stepWork(&Step{Op: "work", Sub: sub}) {
+			return
+		}
+	}
+}
+
 func (s *Sim) shellByName(sub string) *shell {
 	switch sub {
 	case "store":
@@ -781,6 +822,13 @@ func (s *Sim) workStore(st *Step, take []*aioSQE) {
 			}
 		}
 		s.Last = after
+		if s.opts.Log != nil {
+			var sb strings.Builder
+			for _, tr := range recs {
+				sb.WriteString(tr.Tag + ":" + txSig(tr) + " ")
+			}
+			s.logf("STORE batch committed=%v %s", committed, sb.String())
+		}
 		s.afterBatch(before, after, recs, committed)
 		j := 0
 		for i := range take {
@@ -853,6 +901,11 @@ func (s *Sim) afterBatch(before, after *tables.Tables, recs []*TxRec, committed 
 		s.commitSig = append(s.commitSig, strings.Join(sig, ";"))
 	}
 	s.rules.onBatch(before, after, recs, committed)
+	for _, r := range recs {
+		if rq := s.reqByTag[r.Tag]; rq == nil || rq.Responses > 0 || rq.Lost {
+			r.Pre, r.Post = nil, nil
+		}
+	}
 }
 
 func txSig(r *TxRec) string {
@@ -1011,13 +1064,22 @@ func (s *Sim) stepQuiesce(rounds int) bool {
 			return true
 		}
 	}
-	s.rules.onQuiesceStart()
-	if rounds <= 0 {
-		rounds = s.rules.convergenceBudget()
-	}
+	s.fair = true
+	defer func() { s.fair = false }()
 	step := s.Cfg.SignalTimeoutMs
 	if step <= 0 {
 		step = 1
+	}
+	// let requests that were still queued finish, then measure the backlog
+	for i := 0; i < 3 && s.alive; i++ {
+		s.autoRound(step)
+	}
+	if !s.alive {
+		return true
+	}
+	s.rules.onQuiesceStart()
+	if rounds <= 0 {
+		rounds = s.rules.convergenceBudget()
 	}
 	for i := 0; i < rounds && s.alive; i++ {
 		s.autoRound(step)
